@@ -584,8 +584,8 @@ func (w *world) runRound(c *tcase) *roundRec {
 			Meta:          snet.PathMetadata{Interfaces: fpIfaces(c.Offered[p])},
 		}
 	}
-	laddr := udp.UDPAddr{IA: localIA, Host: &net.UDPAddr{IP: net.IPv4(127, 0, 0, 1)}}
-	raddr := udp.UDPAddr{IA: remoteIA, Host: &net.UDPAddr{IP: net.IPv4(127, 0, 0, 1), Port: 10123}}
+	laddr := udp.UDPAddr{IA: localIA, Host: &net.UDPAddr{IP: net.IPv4(127, 0, 0, 1).To4()}}
+	raddr := udp.UDPAddr{IA: remoteIA, Host: &net.UDPAddr{IP: net.IPv4(127, 0, 0, 1).To4(), Port: 10123}}
 	reference := raddr.IA.String() + "," + raddr.Host.String()
 	fps := map[string]int{}
 	for f := 1; f <= 9; f++ {
